@@ -31,7 +31,14 @@ if os.path.exists(p):
     out.append("| Commit | Property | Result | First signature |\n|---|---|---|---|")
     for r in rows:
         r+=['']*(5-len(r))
-        res='caught' if 'exit=1' in r[2] else ('patch does not apply any more' if 'PATCH' in r[2] else ('build failed' if 'BUILD' in r[2] else '**missed**'))
+        if r[1] in ('C33','C36'):
+            res='not run (the scratch runner does not rebuild the CLI / C library these checks drive)'
+        elif 'exit=1 ' in r[2]+' ' and 'exit=13' not in r[2]: res='caught'
+        elif 'exit=134' in r[2]: res='harness process aborted by the reintroduced defect (exit 134; C23 decodes filters in-process)'
+        elif 'exit=2' in r[2]: res='inconclusive (exit 2)'
+        elif 'PATCH' in r[2]: res='the reverse patch no longer applies (later repairs touch the same lines)'
+        elif 'BUILD' in r[2]: res='build failed'
+        else: res='**missed**'
         out.append(f"| `{r[0]}` {r[4][:70].replace('|','/')} | {r[1]} | {res} | `{r[3][:90].replace('|','/')}` |")
 text="\n".join(out)
 dsg=open('/verif/DESIGN.md').read()
